@@ -2340,6 +2340,9 @@ func (t *Terminal) updatePromptOffset() ([]rune, []rune) {
 	_, overflow := t.trimLeft(t.input[:t.cx], maxWidth)
 	minOffset := int(overflow)
 	maxOffset := minOffset + (maxWidth-util.Max(0, maxWidth-t.cx))/2
+	// With wide characters fewer runes than columns fit before the cursor, so
+	// the estimate above can point beyond the cursor
+	maxOffset = util.Min(maxOffset, t.cx)
 	t.xoffset = util.Constrain(t.xoffset, minOffset, maxOffset)
 	before, _ := t.trimLeft(t.input[t.xoffset:t.cx], maxWidth)
 	beforeLen := t.displayWidth(before)
